@@ -6,7 +6,7 @@
         net      = nil | lan,gw,dhcp,dns,first,dur,stage
         lease    = cid,state,mac,ip,expiry
         addr     = x | 4_<dec> | 6_<dec>_<zonehex|->       prefix = x | <addr>/<bits>
-      observation: ok <net1 lan> <net2 lan> <lease;lease;...|->   (lease = cid,mac,ip,sub,expiry sorted by cid)
+      observation: ok <net1> <net2> <lease;lease;...|->   (lease = cid,mac,ip,sub,expiry sorted by cid)
                  | err | panic
    newt <cfg> <captured> <hex text> err|doc ...   as new; the text is what the implementation is given,
         the document what yaml.Unmarshal made of it (computed by the harness)
@@ -134,9 +134,13 @@ Definition show_rec (r : lease_rec) : string :=
 
 Definition show_list (l : list string) : string := match l with [] => "-" | _ => join ";" l end.
 
+Definition show_net (c : subnetcfg) : string :=
+  show_prefix (s_lan c) ++ "," ++ show_addr (s_gw c) ++ "," ++ show_addr (s_dhcp c) ++ "," ++ show_addr (s_dns c) ++ "," ++
+  show_addr (s_first c) ++ "," ++ dec_of_Z (s_dur c) ++ "," ++ dec_of_N (s_stage c).
+
 Definition show_state (r : res dstate) : string :=
   match r with
-  | Ok s => "ok " ++ show_prefix (s_lan (n_cfg (d_n1 s))) ++ " " ++ show_prefix (s_lan (n_cfg (d_n2 s))) ++ " " ++
+  | Ok s => "ok " ++ show_net (n_cfg (d_n1 s)) ++ " " ++ show_net (n_cfg (d_n2 s)) ++ " " ++
             show_list (map show_lease (sort_by l_cid (d_table s)))
   | Err _ => "err"
   | Panic => "panic"
